@@ -327,6 +327,40 @@ Theorem C14_unknown_primary_prefix_refuted :
   /\ import_pre_bf7 (PSig (ps (mk 1 19 100 None true 7)) :: blob_unknown) = ErrLeadingSignature.
 Proof. split; [eexists; eexists; split; [vm_compute; reflexivity|]; repeat split|reflexivity]. Qed.
 
+(* the general form: whatever follows a primary key packet of unknown version - signatures, user ids, attributes, subkeys, stray and
+   opaque packets, further primary keys of unknown version, Trust packets - up to the next understood primary key packet, the two
+   neighbours come back exactly as if the unknown key were not there.  No side condition on how junk begins: signatures directly after
+   the unknown key packet are grouped with IT (and dropped with it), they do not reach the last component of k1.  (The premise excludes
+   only an understood primary key packet inside junk: that one would be a third key.) *)
+Theorem C14_unknown_primary_between_exports : forall k1 k2 (junk : list packet) v,
+  wf_pub k1 -> wf_pub k2 -> kid k1 <> kid k2 ->
+  (forall p, In p junk -> match p with PKey true _ _ _ => False | _ => True end) ->
+  import (export k1 ++ POpaqueKey v :: junk ++ export k2) = Ok [copy (strip_nonexportable k1); copy (strip_nonexportable k2)].
+Proof. exact unknown_primary_between_exports. Qed.
+Print Assumptions C14_unknown_primary_between_exports.
+
+(* non-vacuity: k_ex (above) and a second key around an unknown key that brings signatures, a user id, a subkey with a binding, a stray
+   packet, a Trust packet, an opaque signature and a further unknown primary key *)
+Definition k_ex2 : key :=
+  {| p_label := 2; p_public := true; p_sigs := [];
+     p_uids := [ {| u_isuid := true; u_content := [9]; u_sigs := [ps (mk 2 19 100 None true 20)] |} ]; p_subs := [] |}.
+Definition junk_ex : list packet :=
+  [PSig (ps (mk 9 31 100 None false 30)); PTrust; PUid true [2]; PSig (ps (mk 9 19 100 None true 31)); PStray 1; PSig (ps (mk 1 16 100 None false 32));
+   PKey false true true 4; PSig (ps (mk 9 24 100 None false 33)); POpaque true 6; POpaqueKey 8; PUid false [3]].
+Example C14_unknown_primary_between_exports_inhabited :
+  wf_pub k_ex /\ wf_pub k_ex2 /\ kid k_ex <> kid k_ex2
+  /\ (forall p, In p junk_ex -> match p with PKey true _ _ _ => False | _ => True end)
+  /\ import (export k_ex ++ POpaqueKey 7 :: junk_ex ++ export k_ex2) = Ok [copy (strip_nonexportable k_ex); copy (strip_nonexportable k_ex2)]
+  /\ (* the rule before repair bf7dbf5 gave the unknown key's user ids and subkey to k_ex *)
+     (exists a b, import_pre_bf7 (export k_ex ++ POpaqueKey 7 :: junk_ex ++ export k_ex2) = Ok [a; b]
+                  /\ length (p_uids a) = 4%nat /\ length (p_subs a) = 2%nat).
+Proof.
+  split; [apply wf_pubb_wf_pub; vm_compute; reflexivity|]. split; [apply wf_pubb_wf_pub; vm_compute; reflexivity|].
+  split; [vm_compute; congruence|]. split.
+  - intros p Hp. vm_compute in Hp. repeat (destruct Hp as [<-|Hp]; [exact I|]). destruct Hp.
+  - split; [vm_compute; reflexivity|]. eexists. eexists. split; [vm_compute; reflexivity|]. split; reflexivity.
+Qed.
+
 (* ------------------------------------------------------------------ signature packets inside the key keep their octets *)
 (* KeyStruct treats a signature packet as an atom; that is justified for the two subpacket areas by Model/SubArea.v:
    copies (copy.copy, PGPKey.pubkey) export what the original exports, and a parsed packet exports what was read *)
